@@ -23,11 +23,11 @@ import json
 
 STREAMS = ['names-exhaustive-bytes', 'names-exhaustive-direct', 'names-random-bytes',
            'spec-vs-reference', 'client-flags']
-THEOREMS = ['inv_reachable', 'at_most_one_owner_and_alive', 'request_semantics',
-            'reply_states_relation', 'release_semantics', 'disconnect_semantics',
-            'queries_agree', 'refines_spec', 'run_refines_spec', 'step_never_raises',
-            'signals_track_ownership', 'client_flags_roundtrip', 'client_success_iff_owner',
-            'codes_match_spec']
+THEOREMS = ['inv_reachable', 'inv_step', 'at_most_one_owner_and_alive', 'step_never_raises',
+            'request_semantics', 'reply_states_relation', 'release_semantics', 'disconnect_semantics',
+            'signals_track_ownership', 'at_most_one_believer',
+            'queries_agree', 'refines_spec', 'run_refines_spec', 'codes_match_spec',
+            'client_flags_roundtrip', 'client_success_iff_owner']
 TRUSTED_BASE = [
     'Python dict (insertion order, in-place overwrite, del), list.remove / insert / append / `in`, '
     'object identity of connections (`is`) - mirrored by hand in Bus/Names.lean, validated by the streams',
